@@ -140,3 +140,20 @@ def template_arity(t):
 def ns_root(n):
     """the outermost namespace: the first ancestor without a name or without a parent"""
     return n if (n.name == '' or isinstance(n.parent, str)) else ns_root(n.parent)
+
+
+@spec()
+def same_quals(a, b):
+    """the qualifiers of a type: const, shared pointer, raw pointer, reference, basic"""
+    return (a.is_const == b.is_const and a.is_shared_ptr == b.is_shared_ptr and a.is_ptr == b.is_ptr
+            and a.is_ref == b.is_ref and a.is_basic == b.is_basic)
+
+
+@spec()
+def same_quals_or_absent(a, b):
+    """second member of a return type: absent ('') or a type with the qualifiers of b"""
+    if isinstance(a, str):
+        return True
+    if isinstance(b, str):
+        return False
+    return same_quals(a, b)
